@@ -94,7 +94,12 @@ def h_notif_doc(ctx, which, flags, enc):
     drop = ()
     if "participant" in node.attributes and ctx.flag("drop_participant"):
         drop = ("participant",)
-    sym = SC.symbolise(ctx, node, drop=drop)
+    # short text leaves (a status text, a subject) are two arbitrary bytes, or absent altogether (a cleared status)
+    sym = SC.symbolise(ctx, node, drop=drop, data="text")
+    if which == "StatusNotificationProtocolEntity" and ctx.flag("body_cleared"):
+        for ch in sym.children:
+            if not ch.children:
+                ch.data = None
     bottom.inject(sym)
     a = sym.attributes
     return _ack_obs(bottom.down, a["id"], a["type"], a["from"], a.get("participant"))
@@ -183,7 +188,7 @@ def h_unsupported_message(ctx, kind, flags, enc):
         attrs["notify"] = H.zstr(ctx, "notify")
     pattrs = {}
     if kind == "unknown-mediatype":
-        mt = H.zstr(ctx, "mediatype")
+        mt = H.zstr(ctx, "mediatype", nonempty=False)          # a peer can put an empty attribute value on the wire (8-bit length form, length 0)
         for known in ("image", "sticker", "audio", "ptt", "video", "gif", "location", "contact", "document", "url"):
             ctx.assume(mt != known)
         attrs["type"] = "media"
